@@ -475,6 +475,13 @@ func (S *Specs) parseClause(file string, line int, cur *FuncSpec, word, rest str
 			props = cur.Props
 		}
 		cur.Frames = append(cur.Frames, &Clause{Text: r, Props: props, Name: r, Line: line})
+	case "calledby":
+		// calledby[P] <function key globs>: a static call-graph clause
+		props, r := takeProps(rest)
+		if props == nil {
+			props = cur.Props
+		}
+		cur.Frames = append(cur.Frames, &Clause{Text: "calledby " + r, Props: props, Name: "calledby " + r, Line: line})
 	case "ghost":
 		cur.Ghost = append(cur.Ghost, rest)
 	default:
